@@ -5,7 +5,7 @@ set -u
 id="$1"; patch="$(realpath "$2")"; tier="${3:-quick}"
 export GOFLAGS=-mod=mod GOPROXY=off GOSUMDB=off GOTOOLCHAIN=local CGO_ENABLED=0
 wt="/tmp/mut-$id-$$"
-git -C /repo worktree add -q --detach "$wt" HEAD || exit 2
+for try in 1 2 3 4 5; do git -C /repo worktree add -q --detach "$wt" HEAD 2>/dev/null && break; sleep $((RANDOM % 5 + 1)); done; [ -d "$wt" ] || { echo "cannot create worktree"; exit 2; }
 trap 'git -C /repo worktree remove --force "$wt" >/dev/null 2>&1; rm -f /verif/.build/bin/*-$(echo "$wt" | md5sum | cut -c1-8)' EXIT
 if ! git -C "$wt" apply "$patch"; then echo "PATCH-DOES-NOT-APPLY $patch"; exit 2; fi
 if (cd "$wt" && go build ./... 2>&1 | tail -5 | grep -q .); then echo "MUTANT-DOES-NOT-COMPILE"; (cd "$wt" && go build ./... 2>&1 | tail -5); exit 2; fi
